@@ -2,6 +2,7 @@ package main
 
 import (
 	"fmt"
+	"go/constant"
 	"go/token"
 	"go/types"
 	"sort"
@@ -857,6 +858,25 @@ func c19ExchangeObjectsMadeOnce(c *Ctx, r *Report, rule string) {
 				}
 			}
 			how := "assigned while the context is being made"
+			if isCtor {
+				// ... and made for this context: a channel / state machine / client that several
+				// subscribers share delivers one subscriber's answers to whoever registered last
+				fresh := false
+				switch v := stripConv(st.Val).(type) {
+				case *ssa.MakeChan:
+					fresh = true
+				case *ssa.Alloc:
+					fresh = v.Parent() == f
+				case *ssa.Call:
+					if obj := calleeObj(&v.Call); obj != nil && obj.Pkg() != nil && strings.HasSuffix(obj.Pkg().Path(), "go-diameter/diam/sm") && obj.Name() == "New" {
+						fresh = true
+					}
+				}
+				if !fresh {
+					r.viol(rule, key, posOf(c, st), "ChfUe."+ft.Name()+" is assigned "+describe(st.Val)+", not an object made for this subscriber (make(chan ..), sm.New(..), &sm.Client{..}): a channel or state machine that subscribers share carries one answer handler - the one registered last - so while two subscribers have requests outstanding the answer for one is delivered to the other, who acts on it, and the first times out")
+					return
+				}
+			}
 			if !isCtor {
 				switch ft.Type().Underlying().(type) {
 				case *types.Chan:
@@ -954,6 +974,44 @@ func c06GrantsComeFromCreditControl(c *Ctx, r *Report, rule string) {
 				}
 			})
 		}
+	}
+	// a release reports the last usage of the session: it is settled against the reservation by
+	// the same credit control - a release that succeeds without it leaves used units unpaid, and the
+	// next session of the subscriber starts on a reservation that was consumed already
+	{
+		f := c.fn("internal/sbi/processor", "Processor.ChargingDataRelease")
+		key := fnKey(f) + "|a successful release has run the credit control of its usage"
+		cc := map[*ssa.BasicBlock]bool{}
+		eachInstr(f, func(b *ssa.BasicBlock, _ int, ins ssa.Instruction) {
+			if call, ok := ins.(*ssa.Call); ok && reaches[call.Call.StaticCallee()] {
+				cc[b] = true
+			}
+		})
+		free := reachableFrom(f.Blocks[0], nil, nil, cc)
+		bad := ""
+		for _, ri := range returnsOf(f) {
+			if len(ri.Vals) == 0 {
+				continue
+			}
+			// `if problem != nil { return problem }`: the value returned here is not nil, whatever
+			// its merge node lists
+			if nilTestDominates(f, ri.Vals[0], ri.Ret.Block()) {
+				continue
+			}
+			for _, lf := range leavesOf(ri.Vals[0]) {
+				if k, isC := lf.val.(*ssa.Const); !isC || k.Value != nil {
+					continue
+				}
+				exit := ri.At
+				if lf.from != nil {
+					exit = lf.from
+				}
+				if free[exit] || len(cc) == 0 {
+					bad = posOf(c, ri.Ret)
+				}
+			}
+		}
+		r.check(bad == "", rule, key, c.rel(f.Pos()), "every success return lies behind the credit control of the request", "the release can succeed (return at "+bad+") without having run sessionChargingReservation for the usage it reports: the units used since the last update are never deducted from the reservation, which the subscriber's next session then spends again - units are granted that no money covers")
 	}
 	for _, name := range []string{"Processor.ChargingDataCreate", "Processor.ChargingDataUpdate"} {
 		f := c.fn("internal/sbi/processor", name)
@@ -1232,4 +1290,356 @@ func c12RechargeParamVsAdmittedIds(c *Ctx, r *Report, rule string) {
 		}
 	})
 	r.check(last, rule, key, c.rel(f.Pos()), "the parameter is cut at its last separator", fmt.Sprintf("NewCHFUe admits the formats %v, whose ids may contain `_` (a legal NAI character), while RechargePut refuses every parameter that does not split into exactly two parts: a known subscriber of such a format is answered 400 and no re-authorisation notification is sent", others))
+}
+
+// noLockAcrossNotification (C09.R8 / C11.R11 / C12.R14): the re-authorisation notification is an
+// HTTP request to the consumer, and the consumer is entitled to react to it with a charging
+// data update of the same subscriber *before* it answers the notification.  That update needs
+// the subscriber's lock.  The CHF must therefore not hold any lock of the module while it waits
+// for the answer to the notification: otherwise the two sides wait for each other until a
+// client time-out, the update is not answered and nobody else can be served for the subscriber.
+// (The Diameter exchanges are different: those peers never call back.)
+func noLockAcrossNotification(c *Ctx, r *Report, rule string) {
+	sa := newSharedAnalysis(c)
+	n := 0
+	for _, f := range c.ModFuncs {
+		if !sa.ls.reached[f] {
+			continue
+		}
+		eachInstr(f, func(_ *ssa.BasicBlock, _ int, ins ssa.Instruction) {
+			call, ok := ins.(*ssa.Call)
+			if !ok {
+				return
+			}
+			obj := calleeObj(&call.Call)
+			if obj == nil || obj.Pkg() == nil || obj.Name() != "PostChargingNotification" || strings.HasPrefix(obj.Pkg().Path(), modPath) {
+				return
+			}
+			n++
+			held, _ := sa.ls.heldAt(call)
+			key := fmt.Sprintf("%s|notification #%s sent with no lock held", fnKey(rootOf(f)), ordinalOf(f, call, obj))
+			r.check(held == 0, rule, key, posOf(c, call), "no lock of the module is held while the CHF waits for the consumer's answer",
+				"the notification to the consumer is sent - and its answer awaited - with "+sa.ls.names(held)+" held: a consumer that reacts to the notification with an update of the same subscriber before it answers (it may) waits for that lock, the CHF waits for the answer: both stall until the HTTP client gives up, the update is not answered in time and every other request of the subscriber queues behind them")
+		})
+	}
+	if n == 0 {
+		r.viol(rule, "notification", "", "no request-reachable call of PostChargingNotification found (anchor moved)")
+	}
+}
+
+// subscriberKeyBehindTypeTest (C07.R9 / C08.R8): the account and the tariff of a request are
+// looked up under "imsi-" + Subscription-Id-Data.  That is the subscriber the request names
+// only when the Subscription-Id-Type says the data is an IMSI: for an E.164 number or an NAI
+// with the same digits it is somebody else's account.  The key is built only behind the test
+// Subscription-Id-Type == END_USER_IMSI.
+func subscriberKeyBehindTypeTest(c *Ctx, r *Report, rule string, handlers ...*ssa.Function) {
+	imsiT := constOf(c, "ccs_diameter/datatype", "END_USER_IMSI")
+	for _, h := range handlers {
+		n := 0
+		for _, f := range withAnon(h) {
+			eachInstr(f, func(_ *ssa.BasicBlock, _ int, ins ssa.Instruction) {
+				bo, ok := ins.(*ssa.BinOp)
+				if !ok || bo.Op != token.ADD {
+					return
+				}
+				s, ok := constString(bo.X)
+				if !ok || s != "imsi-" {
+					return
+				}
+				n++
+				guarded := false
+				for b := bo.Block(); b != nil && !guarded; b = b.Idom() {
+					for _, p := range b.Preds {
+						if len(p.Instrs) == 0 || len(p.Succs) != 2 || p.Succs[0] != b || p.Succs[1] == b {
+							continue
+						}
+						ifi, ok := p.Instrs[len(p.Instrs)-1].(*ssa.If)
+						if !ok {
+							continue
+						}
+						cmp, ok := ifi.Cond.(*ssa.BinOp)
+						if !ok || cmp.Op != token.EQL {
+							continue
+						}
+						x, y := cmp.X, cmp.Y
+						if _, isC := x.(*ssa.Const); isC {
+							x, y = y, x
+						}
+						k, isC := constInt(y)
+						pth, okp := pathOf(x)
+						if isC && k == imsiT && okp && strings.HasSuffix(strings.Join(pth.Elems, "."), "SubscriptionIdType") && len(b.Preds) == 1 {
+							guarded = true
+						}
+					}
+				}
+				r.check(guarded, rule, fmt.Sprintf("%s|subscriber key #%d behind the IMSI type test", fnKey(rootOf(f)), n), posOf(c, bo), "built only for Subscription-Id-Type END_USER_IMSI",
+					"the look-up key \"imsi-\" + Subscription-Id-Data is built whatever the Subscription-Id-Type says: a request that names an E.164 number or an NAI whose characters equal the digits of a stored IMSI is served from - and debits or refunds - that subscriber's account / tariff")
+			})
+		}
+		if n == 0 {
+			r.proven(rule, fnKey(h)+"|subscriber key", c.rel(h.Pos()), "the handler does not build the look-up key from the literal prefix (another construction: C07.R7 / C08.R6 cover its provenance)")
+		}
+	}
+}
+
+// c20ValidationGuardsItself (C20.R6): the `required` tags are evaluated by
+// govalidator.ValidateStruct; the hand-written validation passes run *before* it (Config.Validate
+// calls Configuration.validate, which calls Sbi.validate, and only then ValidateStruct).  Inside
+// those passes a mandatory section may still be missing: every method call on, and every member
+// access through, a pointer-typed configuration member needs its own nil test there.  (Outside
+// validation C20.R2 lets the `required` tag stand for the test.)
+func c20ValidationGuardsItself(c *Ctx, r *Report, rule string) {
+	n := 0
+	for _, f := range c.ModFuncs {
+		root := rootOf(f)
+		if root.Pkg == nil || root.Pkg.Pkg.Path() != factoryPath || root.Signature.Recv() == nil {
+			continue
+		}
+		if root.Name() != "Validate" && root.Name() != "validate" {
+			continue
+		}
+		eachInstr(f, func(_ *ssa.BasicBlock, _ int, ins ssa.Instruction) {
+			call, ok := ins.(*ssa.Call)
+			if !ok || len(call.Call.Args) == 0 || call.Call.IsInvoke() {
+				return
+			}
+			callee := call.Call.StaticCallee()
+			if callee == nil || callee.Signature.Recv() == nil || !c.inModule(callee) {
+				return
+			}
+			recv := call.Call.Args[0]
+			if _, isPtr := recv.Type().Underlying().(*types.Pointer); !isPtr {
+				return
+			}
+			ld, ok := recv.(*ssa.UnOp)
+			if !ok || ld.Op != token.MUL {
+				return
+			}
+			fa, ok := ld.X.(*ssa.FieldAddr)
+			if !ok {
+				return // the receiver of the enclosing method itself, a local: not a configuration member
+			}
+			n++
+			guarded := nilTestDominates(f, recv, call.Block())
+			key := fmt.Sprintf("%s|%s called on member %s", fnKey(root), callee.Name(), fieldName(fa))
+			r.check(guarded, rule, key, posOf(c, call), "behind a nil test of the member", "the validation pass calls "+shortFn(callee)+" on the configuration member "+fieldName(fa)+" without testing it for nil: the `required` tag of a section is only evaluated by ValidateStruct, which runs after this pass - a configuration that lacks the section makes ReadConfig panic with a nil dereference instead of returning the validation error")
+		})
+	}
+	if n == 0 {
+		r.proven(rule, "validation passes", "", "the hand-written validation passes call no method on a pointer-typed configuration member")
+	}
+}
+
+// nilTestDominates: blk is entered only over the non-nil edge of a test `v != nil` / `v == nil`
+// of the same value or access path.
+func nilTestDominates(f *ssa.Function, v ssa.Value, blk *ssa.BasicBlock) bool {
+	p1, _ := pathOf(v)
+	for _, b := range f.Blocks {
+		if len(b.Instrs) == 0 || len(b.Succs) != 2 {
+			continue
+		}
+		ifi, ok := b.Instrs[len(b.Instrs)-1].(*ssa.If)
+		if !ok {
+			continue
+		}
+		bo, ok := ifi.Cond.(*ssa.BinOp)
+		if !ok || (bo.Op != token.NEQ && bo.Op != token.EQL) {
+			continue
+		}
+		x, y := bo.X, bo.Y
+		if isNilConst(x) {
+			x, y = y, x
+		}
+		if !isNilConst(y) {
+			continue
+		}
+		same := x == v
+		if !same {
+			if p2, ok := pathOf(x); ok && p2.String() == p1.String() && p2.String() != "" {
+				same = true
+			}
+		}
+		if !same {
+			continue
+		}
+		nonNil := b.Succs[0]
+		if bo.Op == token.EQL {
+			nonNil = b.Succs[1]
+		}
+		if edgeDominates(b, nonNil, blk) {
+			return true
+		}
+	}
+	return false
+}
+
+// c20OptionalReceivers (part of C20.R2): a method of this module called on an optional
+// configuration member dereferences its receiver inside the callee; the nil test has to be at
+// the call (or at the top of the method).
+func c20OptionalReceivers(c *Ctx, r *Report, rule string, optional map[*types.Var]bool) {
+	derefsReceiver := func(callee *ssa.Function) bool {
+		if len(callee.Params) == 0 || len(callee.Blocks) == 0 {
+			return false
+		}
+		p := callee.Params[0]
+		bad := false
+		for _, ref := range *p.Referrers() {
+			switch y := ref.(type) {
+			case *ssa.FieldAddr:
+				if y.X == ssa.Value(p) && !nilTestDominates(callee, p, y.Block()) {
+					bad = true
+				}
+			case *ssa.UnOp:
+				if y.Op == token.MUL && y.X == ssa.Value(p) && !nilTestDominates(callee, p, y.Block()) {
+					bad = true
+				}
+			}
+		}
+		return bad
+	}
+	for _, f := range c.ModFuncs {
+		cnt := map[string]int{}
+		eachInstr(f, func(_ *ssa.BasicBlock, _ int, ins ssa.Instruction) {
+			call, ok := ins.(*ssa.Call)
+			if !ok || len(call.Call.Args) == 0 || call.Call.IsInvoke() {
+				return
+			}
+			callee := call.Call.StaticCallee()
+			if callee == nil || callee.Signature.Recv() == nil || !c.inModule(callee) {
+				return
+			}
+			ld, ok := call.Call.Args[0].(*ssa.UnOp)
+			if !ok || ld.Op != token.MUL {
+				return
+			}
+			fa, ok := ld.X.(*ssa.FieldAddr)
+			if !ok {
+				return
+			}
+			st := derefStruct(fa.X.Type())
+			if st == nil || !optional[st.Field(fa.Field)] {
+				return
+			}
+			name := fieldName(fa) + "." + callee.Name()
+			cnt[name]++
+			key := fmt.Sprintf("%s|%s()#%d", fnKey(rootOf(f)), name, cnt[name])
+			if !derefsReceiver(callee) {
+				r.proven(rule, key, posOf(c, call), "the method tests its receiver before it uses it")
+				return
+			}
+			r.check(nilTestDominates(f, call.Call.Args[0], call.Block()), rule, key, posOf(c, call), "optional member, method called behind a nil test",
+				"the method "+shortFn(callee)+", which uses its receiver without a nil test, is called on the configuration member "+fieldName(fa)+" - not guaranteed by validation (its valid tag lacks `required`) - without a nil test at the call: a configuration that validates but omits the block crashes here")
+		})
+	}
+}
+
+// c15NarrowShifts (C15.R8): the layout rules place a member at (shift, width) of the word it
+// is packed into by adding up the shifts on its way there - which is right only if no shift on
+// the way pushes bits out of the type it is computed in.  `uint32(month<<5 | date)` computes
+// the shift in uint8: a 4-bit month shifted by 5 needs 9 bits and loses its top bit before it
+// is widened.  Every constant left shift in an 8- or 16-bit type in the file / record header
+// encoders must keep (bits of the member per TS 32.297) + (shift) within the type.
+func c15NarrowShifts(c *Ctx, r *Report, rule string, fns ...*ssa.Function) {
+	bitsOf := map[string]int{}
+	for _, t := range [][]tsRow{ts32297Header, ts32297Record} {
+		for _, row := range t {
+			name := row.name
+			if i := strings.LastIndex(name, "."); i >= 0 {
+				name = name[i+1:]
+			}
+			if row.bits > 0 {
+				bitsOf[name] = row.bits
+			}
+		}
+	}
+	n := 0
+	for _, f := range fns {
+		if f == nil {
+			continue
+		}
+		eachInstr(f, func(_ *ssa.BasicBlock, _ int, ins ssa.Instruction) {
+			bo, ok := ins.(*ssa.BinOp)
+			if !ok || bo.Op != token.SHL {
+				return
+			}
+			k, ok := constInt(bo.Y)
+			if !ok || k <= 0 {
+				return
+			}
+			w := sizeOfBasic(bo.Type()) * 8
+			if w <= 0 || w >= 32 {
+				return
+			}
+			n++
+			key := fmt.Sprintf("%s|shift #%d in a %d-bit type", fnKey(f), n, w)
+			p, okp := pathOf(stripConv(bo.X))
+			if !okp || len(p.Elems) == 0 {
+				r.proven(rule, key, posOf(c, bo), "operand is not a header member (the layout rule C15.R1 decides the result)")
+				return
+			}
+			member := p.Elems[len(p.Elems)-1]
+			b, known := bitsOf[member]
+			if !known {
+				r.proven(rule, key, posOf(c, bo), "operand "+member+" is not a packed member of the TS 32.297 tables")
+				return
+			}
+			r.check(int64(b)+k <= int64(w), rule, key, posOf(c, bo), fmt.Sprintf("%s: %d bits << %d fit the %d-bit type", member, b, k, w),
+				fmt.Sprintf("%s occupies %d bits (TS 32.297) and is shifted left by %d in a %d-bit type before it is widened: its upper %d bit(s) are lost - the member is written correctly only for small values (a month above 7, say, comes out without its top bit)", member, b, k, w, int64(b)+k-int64(w)))
+		})
+	}
+	if n == 0 {
+		r.proven(rule, "narrow shifts", "", "no constant left shift is computed in an 8- or 16-bit type in the header encoders")
+	}
+}
+
+// ts32297Enums: the coded values of TS 32.297 clause 6.1.1.8 (file closure trigger reason),
+// 6.1.2.2 (release identifier), 6.1.2.4 (data record format) and 6.1.2.5 (TS number) - written
+// from the specification; value 8 of the TS number is not assigned.
+var ts32297Enums = map[string]int64{
+	"NormalClosure": 0, "FileSizeLimitReached": 1, "FileOpentimeLimitedReached": 2, "MaximumNumberOfCdrsInFileReached": 3,
+	"FileClosedByManualIntervention": 4, "CdrReleaseVersionOrEncodingChange": 5, "AbnormalFileClosure": 128, "FileSystemError": 129,
+	"FileSystemStorageExhausted": 130, "FileIntegrityError": 131,
+	"Rel99": 0, "Rel4": 1, "Rel5": 2, "Rel6": 3, "Rel7": 4, "Rel8": 5, "Rel9": 6, "BeyondRel9": 7,
+	"BasicEncodingRules": 1, "UnalignedPackedEncodingRules": 2, "AlignedPackedEncodingRules1": 3, "XMLEncodingRules": 4,
+	"TS32005": 0, "TS32015": 1, "TS32205": 2, "TS32215": 3, "TS32225": 4, "TS32235": 5, "TS32250": 6, "TS32251": 7,
+	"TS32260": 9, "TS32270": 10, "TS32271": 11, "TS32272": 12, "TS32273": 13, "TS32275": 14, "TS32274": 15, "TS32277": 16,
+	"TS32296": 17, "TS32278": 18, "TS32253": 19, "TS32255": 20, "TS32254": 21, "TS32256": 22, "TS28201": 23, "TS28202": 24,
+}
+
+// c15EnumValues (C15.R9): the named values a caller puts into the header members are the
+// numbers the specification assigns - a reader written from the specification recovers "TS
+// 32.255" only if the constant TS32255 is 20.  Exhaustive over the typed constants of package
+// cdrFile; a constant the table does not know is reported (the table has to be extended from the
+// specification, not from the code).
+func c15EnumValues(c *Ctx, r *Report, rule string) {
+	pkg := c.pkg("cdr/cdrFile")
+	n := 0
+	names := pkg.Types.Scope().Names()
+	for _, name := range names {
+		k, ok := pkg.Types.Scope().Lookup(name).(*types.Const)
+		if !ok {
+			continue
+		}
+		nt, ok := k.Type().(*types.Named)
+		if !ok || nt.Obj().Pkg() != pkg.Types {
+			continue
+		}
+		switch nt.Obj().Name() {
+		case "FileClosureTriggerReasonType", "ReleaseIdentifierType", "DataRecordFormatType", "TsNumberIdentifier":
+		default:
+			continue
+		}
+		n++
+		v, exact := constant.Int64Val(k.Val())
+		want, known := ts32297Enums[name]
+		key := nt.Obj().Name() + "." + name
+		if !known {
+			r.viol(rule, key, c.rel(k.Pos()), fmt.Sprintf("constant %s = %d of a TS 32.297 enumeration is not in the checker's table of specified values: cannot be compared with the specification", name, v))
+			continue
+		}
+		r.check(exact && v == want, rule, key, c.rel(k.Pos()), fmt.Sprintf("= %d as specified", want), fmt.Sprintf("%s is %d, TS 32.297 assigns %d: a header written with this name carries another meaning for every reader that follows the specification", name, v, want))
+	}
+	if n < 20 {
+		r.viol(rule, "enumerations", "", fmt.Sprintf("only %d typed constants of the TS 32.297 enumerations found in cdr/cdrFile (anchor moved)", n))
+	}
 }
